@@ -2,9 +2,16 @@
    ("<command> <args...>"), runs the real kalign code (freshly built from /repo's working tree,
    hooks on), prints one canonical result line per case. */
 #include <fcntl.h>
+#include <stdarg.h>
 #include "kvh_common.h"
 
-#define MAXARGS 64
+/* kalign logs to stdout as well as stderr: results go to a private copy of the original stdout,
+   fd 1 and 2 are pointed at /dev/null for the whole run. */
+static FILE* kv_out = NULL;
+#define printf(...) fprintf(kv_out, __VA_ARGS__)
+#define KV_OUT kv_out
+
+#define MAXARGS 4096
 static char* args[MAXARGS];
 static int nargs;
 
@@ -75,6 +82,13 @@ int main(void)
         char* line = NULL;
         size_t cap = 0;
         ssize_t n;
+        kv_out = fdopen(dup(1), "w");
+        {
+                int nul = open("/dev/null", O_WRONLY);
+                if(!getenv("KV_KEEP_STDERR")){ dup2(nul, 2); }
+                dup2(nul, 1);
+                close(nul);
+        }
         while((n = getline(&line, &cap, stdin)) != -1){
                 if(n && line[n-1] == '\n'){ line[n-1] = 0; }
                 nargs = 0;
@@ -88,7 +102,7 @@ int main(void)
                         if(strcmp(cmds[i].name, cmd) == 0){ cmds[i].f(); found = 1; break; }
                 }
                 if(!found){ printf("UNKNOWN-COMMAND %s\n", cmd); }
-                fflush(stdout);
+                fflush(kv_out);
         }
         free(line);
         return 0;
